@@ -533,7 +533,8 @@ def fetch_fn(req):
 def callee_outcome(mods, fn, specs, debug):
     """call the library function DIRECTLY (outside the wrapper) -> (outcome tuple, its own log lines)"""
     log = []
-    options = {'globals': {}, 'logFn': log.append, 'debug': debug, 'statementCount': 0, 'maxStatements': 20000, 'fetchFn': fetch_fn}
+    options = {'globals': dict(mods['library'].SCRIPT_FUNCTIONS), 'logFn': log.append, 'debug': debug, 'statementCount': 0,
+               'maxStatements': 20000, 'fetchFn': fetch_fn}
     args = [build(s, mods) for s in specs]
     try:
         out = ('ret', fn(args, options))
